@@ -152,6 +152,7 @@ void Executor::op_file(const Op& op, TaskCtx& t) {
     std::string fk = op.get("fkind", "truncate");
     size_t n = data.size();
     size_t a = n ? (size_t)(op.geti("a", 0) % (long)(n + 1)) : 0;
+    if (n && op.geti("tail", 0)) a = n - (size_t)(op.geti("a", 0) % (long)(n / 4 + 1));   // position in the last quarter of the file
     std::string out = data;
     if (fk == "truncate") out = data.substr(0, a);
     else if (fk == "tearzero") { out = data; for (size_t i = a; i < n; i++) out[i] = '\0'; }
